@@ -94,9 +94,15 @@ func c06Eval(v []int) (string, string, bool) {
 	defer w.Close()
 	// learning history
 	var L *c06Listener
+	detached := false
 	pre := func(srcAddr, viaHost, to, transport string) {
 		pm := MsgSpec{Method: "OPTIONS", RURI: "sip:x@foreign.example.net", Vias: []string{"SIP/2.0/" + strings.ToUpper(transport) + " " + viaHost + ";branch=z9hG4bKpre"},
 			From: "<sip:nh@nh.example.net>;tag=p", To: "<sip:x@nomatch.example.org>", CallID: "pre", CSeq: "1 OPTIONS"}.Build()
+		if detached {
+			// the host is listed in a Via line that does not follow the first Via block directly
+			pm = &WMsg{Start: pm.Start, Hdrs: []WHdr{{"Via", "SIP/2.0/" + strings.ToUpper(transport) + " 10.77.0.9:5060;branch=z9hG4bKtop"}, {"Max-Forwards", "70"},
+				{"From", "<sip:nh@nh.example.net>;tag=p"}, {"Via", "SIP/2.0/UDP 10.77.0.8, SIP/2.0/UDP " + viaHost + ";branch=z9hG4bKlow"}, {"To", "<sip:x@nomatch.example.org>"}, {"Call-ID", "pre"}, {"CSeq", "1 OPTIONS"}, {"Content-Length", "0"}}}
+		}
 		if transport == "tcp" {
 			w.SendTCP(w.Client("pre"+to, strings.Split(srcAddr, ":")[0], to), pm.Render())
 		} else {
@@ -115,7 +121,8 @@ func c06Eval(v []int) (string, string, bool) {
 		tr, to, port := first(l0)
 		pre(hopAddr, "10.77.0.1:5060", to, tr)
 		L = &c06Listener{strings.ToUpper(tr), l0.Addr, port}
-	case "by-via", "by-via-name":
+	case "by-via", "by-via-name", "by-via-detached":
+		detached = learned == "by-via-detached"
 		tr, to, port := first(l0)
 		pre("127.0.0.7:5060", hopHost, to, tr)
 		L = &c06Listener{strings.ToUpper(tr), l0.Addr, port}
@@ -356,7 +363,7 @@ func c06Fresh(c *Ctx, n int) {
 func init() {
 	c06Spec = &EnumSpec{Feats: []Feat{
 		{Name: "path", Vals: []string{"backend", "route", "static"}},
-		{Name: "learned", Vals: []string{"not", "by-source", "by-via", "by-via-name", "by-source-tcp", "other-listener", "relearned"}},
+		{Name: "learned", Vals: []string{"not", "by-source", "by-via", "by-via-name", "by-source-tcp", "other-listener", "relearned", "by-via-detached"}},
 		{Name: "mustrr", Vals: []string{"off", "on"}},
 		{Name: "listeners", Vals: []string{"udp+tcp", "two-entries", "udp-only", "tcp-only"}},
 		{Name: "nvias", Vals: []string{"0", "1", "2", "3", "4", "5", "6"}, Quick: 5},
@@ -399,7 +406,7 @@ func init() {
 		return true
 	}
 	addCheck(&Check{ID: "C06", Level: "exploration",
-		Rule:   "complete product: relaying path x how the next hop was learned (not / earlier request from it / listed in an earlier Via by address or by name / through the TCP listener / through the other listens entry / re-learned) x must-record-route x listener set x 0-4 (thorough 0-6) existing Via entries in 4 layouts x 0-3 (thorough 0-4) Record-Route entries in layouts x position of Record-Route among the other headers x From/Max-Forwards order; each on a fresh world with the learning history replayed first; plus a freshness run relaying 20000 requests through one world; non-trivial = the request was relayed",
+		Rule:   "complete product: relaying path x how the next hop was learned (not / earlier request from it / listed in an earlier Via by address or by name or in a Via line detached from the first Via block / through the TCP listener / through the other listens entry / re-learned) x must-record-route x listener set x 0-4 (thorough 0-6) existing Via entries in 4 layouts x 0-3 (thorough 0-4) Record-Route entries in layouts x position of Record-Route among the other headers x From/Max-Forwards order; each on a fresh world with the learning history replayed first; plus a freshness run relaying 20000 requests through one world; non-trivial = the request was relayed",
 		Assume: []string{"two-listener worlds give both entries the same must-record-route setting (the statement does not say whose setting counts)", "next hop named as it was learned (address literal or the same host name): equivalence of names and addresses for learning is not prescribed"},
 		Run: func(c *Ctx) {
 			c06Spec.Run(c)
